@@ -65,7 +65,12 @@ const (
 
 // run ids of history 1 (the leader's), 2 (another one a follower may hold), 3 (the one a
 // leader adopts when it re-synchronises with its source under a new run id)
-var c16IDs = []string{"", strings.Repeat("a", 40), strings.Repeat("b", 40), strings.Repeat("c", 40)}
+var c16IDs = []string{"", strings.Repeat("a", 40), strings.Repeat("b", 40), strings.Repeat("c", 40), strings.Repeat("d", 40)}
+
+// c16ForkAt: history 4 is history 1 up to this offset and a history of its own from there on
+// (a replica of history 1's master promoted at that offset: its source's fail-over). Set by the
+// "continue-new-id" switch of the execution under way, far away otherwise.
+var c16ForkAt = int64(1) << 60
 
 func c16HistOf(id string) int {
 	for h, x := range c16IDs {
@@ -80,6 +85,9 @@ func c16HistOf(id string) int {
 // body of the history's k-th snapshot, index from 0). Histories and kinds differ at
 // every offset; a shift by any distance below 251*256 changes the byte.
 func c16Byte(hist, kind int, off int64) byte {
+	if hist == 4 && (kind > 0 || off < c16ForkAt) {
+		hist = 1 // snapshots taken before the fork and the log in front of it are history 1's
+	}
 	return byte(off%251) + byte(off/251)*7 + byte(hist*83) + byte(kind*41)
 }
 
@@ -151,6 +159,10 @@ type c16Scenario struct {
 	// the way RedisInput does on a full sync (writer ended, DelRunId, SetRunId, new snapshot,
 	// new log): "resync-same-id" keeps the run id (snapshot at a later offset),
 	// "resync-new-id" adopts run id 3 (another history, offsets overlapping the old ones).
+	// "continue-new-id": the leader's source failed over and GRANTED a partial resynchronisation
+	// under a new id (run id 4 = history 1 up to the leader's newest byte, its own bytes from
+	// there): as RedisInput does then, the log writer ends, the input reports [id 4, id 1], the
+	// cache is re-keyed to id 4 WITHOUT being dropped, a new log writer continues at the same offset.
 	// Window: virtual seconds between SetRunId and the arrival of the new snapshot (the
 	// leader has a run id and no data meanwhile).
 	Switch string `json:"switch,omitempty"`
@@ -168,6 +180,11 @@ type c16Scenario struct {
 	// (input already reports a new first run id, the cache is still keyed by the old one:
 	// CLEAR "wait a moment").
 	NotReady string `json:"not_ready,omitempty"`
+	// PrevID: the leader's input reports the FOLLOWER's run id as its previous id (its source failed
+	// over: it continued history 2 as history 1; what the follower holds under id 2 is, in this
+	// harness's byte model, the old master's own tail - bytes the leader does not have). Only on
+	// scenarios whose follower holds data of history 2.
+	PrevID bool `json:"prev_id,omitempty"`
 }
 
 type c16Fault struct {
@@ -453,6 +470,9 @@ func c16Scenarios(tier string) []c16Scenario {
 				for _, fk := range []string{"empty", "equal"} {
 					out = append(out, c16Scenario{LKind: lk, FKind: fk, Leader: L, Follower: fs[fk], Extra: 600, Switch: "resync-new-id", SwitchAt: "handshake", Window: w})
 				}
+				for _, fk := range []string{"empty", "prefix", "equal", "ahead"} {
+					out = append(out, c16Scenario{LKind: lk, FKind: fk, Leader: L, Follower: fs[fk], Extra: 600, Switch: "continue-new-id", SwitchAt: "handshake", Window: w})
+				}
 			}
 		}
 	}
@@ -481,7 +501,7 @@ func c16Scenarios(tier string) []c16Scenario {
 				for _, sw := range []struct {
 					mode   string
 					window int
-				}{{"resync-same-id", 0}, {"resync-new-id", 0}, {"resync-new-id", 5}} {
+				}{{"resync-same-id", 0}, {"resync-new-id", 0}, {"resync-new-id", 5}, {"continue-new-id", 0}, {"continue-new-id", 5}} {
 					if tier != "thorough" && lk == "log" && n == 5000 {
 						continue
 					}
@@ -501,6 +521,13 @@ func c16Scenarios(tier string) []c16Scenario {
 					}
 				}
 			}
+		}
+	}
+	// the follower's id as the leader's previous id (see PrevID)
+	for _, sc := range append([]c16Scenario(nil), out...) {
+		if strings.HasPrefix(sc.FKind, "other-id") && sc.Follower.Hist == 2 && sc.NotReady == "" && sc.Switch == "" {
+			sc.PrevID = true
+			out = append(out, sc)
 		}
 	}
 	return out
@@ -1174,6 +1201,25 @@ func (r *c16Run) switchBegin() {
 		r.lch.aofGate, r.lch.aofW = nil, nil
 		synctest.Wait()
 	}
+	if r.scn.Switch == "continue-new-id" {
+		r.logf("leader's source failed over and granted a partial resynchronisation: log writer ends, run ids := [%s, %s], SetRunId(%s), cache kept", c16IDs[4][:4], r.L.id[:4], c16IDs[4][:4])
+		c16ForkAt = r.L.right
+		r.input.setRunIds([]string{c16IDs[4], r.L.id})
+		r.lch.ch.SetRunId(c16IDs[4])
+		r.L.id, r.L.hist = c16IDs[4], 4
+		for _, sn := range append([]c16SnapID(nil), r.snaps...) {
+			if sn.hist == 1 {
+				sn.hist = 4
+				r.snaps = append(r.snaps, sn)
+			}
+		}
+		if r.L.snap != nil {
+			r.L.snap = r.snapOf(4, r.L.snap.left, r.L.snap.size)
+		}
+		r.switchPhase, r.switchAt = 1, r.virt
+		r.deadline = r.virt + c16Horizon
+		return
+	}
 	r.input.setRunIds([]string{c16IDs[newHist]})
 	r.lch.ch.DelRunId(r.lch.ch.RunId())
 	r.lch.ch.SetRunId(c16IDs[newHist])
@@ -1211,6 +1257,22 @@ func (r *c16Run) switchData() bool {
 		r.lch.aofGate, r.lch.aofW = g2, aw
 		r.L.snap = nil
 		r.L.right = r.relogLeft + 300
+		r.extra = r.appended + 600
+		r.switchPhase = 2
+		r.deadline = r.virt + c16Horizon
+		return true
+	}
+	if r.scn.Switch == "continue-new-id" {
+		r.logf("leader's log continues at offset %d with 300 bytes of the promoted master", r.L.right)
+		g2 := newGate()
+		aw, err := r.lch.ch.NewAofWritter(g2, r.L.right)
+		if err != nil {
+			return false
+		}
+		aw.Start()
+		c16Feed(g2, 4, 0, r.L.right, 300, 1<<20)
+		r.lch.aofGate, r.lch.aofW = g2, aw
+		r.L.right += 300
 		r.extra = r.appended + 600
 		r.switchPhase = 2
 		r.deadline = r.virt + c16Horizon
@@ -1543,6 +1605,7 @@ func c16Exec(t *testing.T, scn c16Scenario) (res mc.Result, wire int) {
 			fmt.Fprintf(os.Stderr, "c16 exec %6.1fms wire=%d %s obs=%x %s %s\n", float64(time.Since(t0).Microseconds())/1000, wire, res.Verdict, res.Obs, b, tr)
 		}()
 	}
+	c16ForkAt = int64(1) << 60
 	msg := bubble(t, func() {
 		r := &c16Run{scn: scn, net: vgrpc.Reset(), extra: scn.Extra}
 		var err error
@@ -1574,6 +1637,9 @@ func c16Exec(t *testing.T, scn c16Scenario) (res mc.Result, wire int) {
 		// the leader: real ReplicaLeader behind the real syncer.ServiceReplica
 		// (a leader that continued its source's stream reports two ids: the current one and the previous / all-zero one)
 		r.input = &c16Input{ids: []string{c16IDs[1], strings.Repeat("0", 40)}}
+		if scn.PrevID {
+			r.input.ids[1] = c16IDs[2]
+		}
 		leader := NewReplicaLeader(r.input, r.lch.ch)
 		leader.Start()
 		sy := &syncer{logger: log.WithLogger("[c16] "), wait: usync.NewWaitCloser(nil), leader: leader, state: SyncerStateRun, role: SyncerRoleLeader}
